@@ -54,7 +54,7 @@ Definition enc_kind (k : kind) : sexp := SStr (match k with PO => "PO" | PK => "
 Definition enc_shape (s : xsig) : sexp :=
   SList (map (fun p => SList [of_nat (xname p); enc_kind (xkind p); of_bool (match xdef p with Some _ => true | None => false end)]) s).
 
-Definition run_C10 (s : sexp) : sexp :=
+Definition run_with (fd : sig -> sig -> list brk) (s : sexp) : sexp :=
   match s with
   | SList [SStr "hdiff"; o; oops; n; nops] =>
       match dec_xsig o, as_list_of dec_hop oops, dec_xsig n, as_list_of dec_hop nops with
@@ -62,7 +62,8 @@ Definition run_C10 (s : sexp) : sexp :=
           let (fo, eo) := h_run xname xo ho in let (fn, en) := h_run xname xn hn in
           let o' := abs_sig (impl_ident fo fn) fo in let n' := abs_sig (impl_ident fo fn) fn in
           SList [enc_shape fo; SList (map of_bool eo); enc_shape fn; SList (map of_bool en);
-                 SList (map enc_brk (fdiff_m o' n')); of_bool (known_gap_m o' n'); of_bool (wf o' && wf n')]
+                 SList (map enc_brk (fd o' n')); of_bool (known_gap_m o' n'); of_bool (wf o' && wf n')]
       | _, _, _, _ => bad_input end
-  | _ => Model.C10_ext.run_C10 s
+  | _ => Model.C10_ext.run_with fd s
   end%string.
+Definition run_C10 := run_with fdiff_m.
